@@ -97,7 +97,7 @@ CHECKS["C07"] = {
         {"name": "envcheck", "quick_n": 3000, "thorough_n": 40000,
          "oracles": ["envcheck-accepts-mismatch", "envcheck-rejects-equal", "envcheck-evaluated-on-reject", "envcheck-panic", "envcheck-wrong-result", "process-crash"]},
     ],
-    "explanation": "Decision logic of the facade's environment check over the model (Conv.envCheck): rejected iff some compile-time name is unbound or bound to a value of a non-equal type, accepted otherwise with extra names and any field order allowed, verdict independent of iteration order; with C01 whatever passes is safe to run. Tie: envcheck stream through the public API (Compile, Callable) on pairs of struct / map / raw environments and their mutations, with a tracing host function making 'evaluates nothing' observable.",
+    "explanation": "Decision logic of the facade's environment check over the model (Conv.envCheck), proved: accepted iff every compile-time name is bound at run time to a value of an equal type (C07.accept_iff, reject_iff, reject_missing, reject_mismatch, undefined_iff); extra names never matter (extra_names_ok); the verdict, error class included, is invariant under re-ordering of both environments (order_irrelevant); only the types of the bound values matter (only_types_matter); a value whose own object type is a field permutation of the declared type passes (field_order_ok); acceptance plus well-formed values gives the premise of C01/C02 (accepted_env_ok). Tie: envcheck stream through the public API (Compile, Callable) on pairs of struct / map / raw environments and their mutations, half of them after a warm-up call on the same Callable, with a tracing host function making 'evaluates nothing' observable.",
     "assumptions": [],
 }
 
@@ -108,18 +108,18 @@ CHECKS["C08"] = {
         {"name": "parse", "quick_n": 8000, "thorough_n": 60000,
          "oracles": ["parse-tree", "parse-span", "parse-nonassoc", "parse-accepts-malformed", "parse-rejects-wellformed", "parse-fractional-bp", "parse-huge-bp", "parse-harness", "process-crash"]},
     ],
-    "explanation": "The Pratt parser is modelled in full (grammar tables, nud/led functions, float32 binding powers with BP.Prev, the one-pass list-or-map rule, positions) and tied to parser.Parse by the parse stream: 21 operator tables x random trees rendered with minimal and redundant parentheses x all short token sequences x mutations, full tree and positions compared; an independent precedence-climbing reference parser in the harness decides 'the tree dictated by the declarations', spans, non-associativity and rejection of malformed input. Proved over the model: termination within the stated fuel and the non-associative chain check (Props/C08.lean); the Respects/yield completeness theorems of DESIGN Appendix A.1 are not proved, hence level 'other'.",
+    "explanation": "The Pratt parser is modelled in full (grammar tables, nud/led functions, float32 binding powers with BP.Prev, the one-pass list-or-map rule, positions) and tied to parser.Parse by the parse stream: 23 operator tables (incl. fractional and huge powers, twin tables differing only after the decimal point) x random trees rendered with minimal and redundant parentheses x all short token sequences x every operator inside the branches of ?: x mutations; full tree and positions compared; an independent precedence-climbing reference parser in the harness decides 'the tree dictated by the declarations', spans, non-associativity and rejection of malformed input. Proved over the model: every accepted tree is free of unparenthesised non-associative chains (C08.nonassoc), every composite node's span is composed from its first and last component (span_composed, span_binary_root), a generic node-wise invariant principle (node_invariant), the parser never runs out of fuel (C12.parse_no_fuel_partial). Not proved: full span nesting, yield, and the completeness half (redundant / required parentheses) of DESIGN Appendix A.1 — hence level 'other'.",
     "assumptions": ["operator tables that redefine built-in tokens ( ( [ { : , <sym> ) are outside the well-formed tables the property is read for (reported as parse-shadowed-builtin, informational)"],
 }
 
 CHECKS["C09"] = {
-    "level": "other",
+    "level": "proof",
     "lean_targets": ["Yae.Props.C09"],
     "streams": [
         {"name": "lex", "quick_n": 15000, "thorough_n": 200000,
          "oracles": ["lex-partition", "lex-word", "lex-longest", "lex-shadowed", "process-crash"]},
     ],
-    "explanation": "The lexer is modelled in full (rule order, stable length-descending operator sort, keyword / primitive-operator rules, the ten regular expressions as hand-written recognisers, Unicode tables regenerated from Go) and tied to lexer.Lex by the lex stream (exhaustive short strings over a mixed alphabet, random token soups, 13 operator sets; tokens and positions compared); implementation-side oracles check the partition property, whole-word matching, longest match and the built-in '.'/'?' rule directly. Proved over the model: the lexer loop terminates within input length + 1 steps and every token is non-empty; the partition theorem of DESIGN §8 is not proved, hence level 'other'.",
+    "explanation": "Proved over the model of the lexer: a successful run partitions the input into white-space gaps and non-empty lexemes in order (C09.lex_partition), every token's recorded index range, line and column are exactly those of its place (lex_token_at, lex_token_cursor, lex_ordered, lex_slice), identifier-like operators and true/false are whole words (lex_words), '.' and '?' are not split out of a longer operator (lex_prim), the operator sort is a stable descending-length permutation (sortOps_perm/sorted/stable) and the operator token produced is a longest registered symbolic operator unless punctuation or '.'/'?' comes first (lex_longest; the kernel-checked d25_colon_operator shows the unrestricted sentence is false: finding D25), no fuel exhaustion for non-empty kinds (lex_no_fuel). The ten literal recognisers are tied to Go's regular expressions by the lex stream only (nine kernel-checked instances). Tie: lex stream (exhaustive short strings over a mixed alphabet, random token soups, 13 operator sets; tokens and positions compared) plus implementation-side oracles for partition, whole words, longest match.",
     "assumptions": [],
 }
 
@@ -131,7 +131,7 @@ CHECKS["C10"] = {
          "oracles": ["desugar-core", "desugar-idempotent", "desugar-idempotent-group-member", "desugar-mutates-input", "desugar-order", "desugar-shape", "process-crash"]},
         EVAL(2500, 30000, oracles_only=True, oracles=["desugar-aliases-input"]),
     ],
-    "explanation": "Over the model of trans.Desugar: the result contains only core forms (core), desugaring is idempotent on every tree without a parenthesised member callee (idem_partial, with the kernel-checked witness (o.f)(x) of the excluded shape), the five rewriting equations hold by definition and receiver/arguments keep their order (shape_*); type and value of sugar are those of its desugaring because the pipeline has no other semantics for it. Tie: desugar stream on every tree the parse stream accepted plus hand-built ones; oracles for core-only, idempotence, input purity (tree serialised before/after) and order against an independent rule-based reference.",
+    "explanation": "Over the model of trans.Desugar, proved: the result contains only core forms, for every input (C10.core, core_go), desugaring is idempotent on every tree without a parenthesised member callee (idem_partial; the kernel-checked not_idempotent witness (o.f)(x) is finding D18), the five rewriting equations hold and notation equals the explicit call for every downstream function (shape_*, notation_*, same_downstream), receiver and arguments keep their order (args_order, pairs_order, fields_order), core trees are fixed up to erased attachments (core_fixed); type and value of sugar are those of its desugaring because the pipeline has no other semantics for it. Tie: desugar stream on every tree the parse stream accepted plus hand-built ones; oracles for core-only, idempotence, input purity (tree serialised before/after) and order against an independent rule-based reference.",
     "assumptions": [],
 }
 
@@ -154,7 +154,7 @@ CHECKS["C12"] = {
         {"name": "conv", "quick_n": 2000, "thorough_n": 20000, "oracles_only": True, "oracles": ["conv-panic"]},
         {"name": "debug", "quick_n": 800, "thorough_n": 8000, "oracles_only": True, "oracles": ["debug-panic", "process-crash"]},
     ],
-    "explanation": "Partial by nature. Proved over the model: every stage is a total function returning a value or an error, with explicit fuel bounds (lexer: input length + 1; parser: 4*tokens + 32 call depth; unify: size of the ground side; eval: expression depth; VM: code size, C11). Not expressible in a model: wall-clock budgets, goroutine stack exhaustion, process death. The api stream is the failing-input search for those: random bytes/runes, token-level mutations of valid programs, bracket nests to depth 2000, operator chains, 14 kinds of host values through Eval / Compile+Callable / Debug with a per-input time budget, and growth families timed at increasing depth.",
+    "explanation": "Partial by nature. Proved over the model: every stage is a total function returning a value or an error and its fuel never runs out — lexer (C12.lex_no_fuel, lex_steps: at most one round per input character, lex_fuel_mono, lex_rule_attempts), parser (parse_no_fuel_partial, parseWith_no_fuel: 4*tokens+1 suffices), unifier (C17.unify_fuel_sufficient), checker (C05.never_fuel), evaluator (C02.progress: depth suffices), VM (C11.verify_sound, compiled_runs_safely: at most the code size). Not expressible in a model: wall-clock budgets, goroutine stack exhaustion, process death. The api stream is the failing-input search for those: random bytes/runes, token-level mutations of valid programs, bracket nests to depth 2000, operator chains, 14 kinds of host values through Eval / Compile+Callable / Debug with a per-input time budget, and growth families timed at increasing depth.",
     "assumptions": ["testing, not proof, for promptness and panic containment of the Go facade"],
 }
 
@@ -181,15 +181,15 @@ CHECKS["C14"] = {
 }
 
 CHECKS["C15"] = {
-    "level": "other",
+    "level": "proof",
     "lean_targets": ["Yae.Props.C15"],
     "streams": [
         {"name": "conv", "quick_n": 4000, "thorough_n": 50000,
          "oracles": ["conv-wf", "conv-type-disagrees", "conv-content", "conv-unstable-type", "conv-error-missing", "conv-panic", "process-crash"]},
         {"name": "envcheck", "quick_n": 1000, "thorough_n": 10000, "oracles_only": True, "oracles": ["envcheck-panic"]},
     ],
-    "explanation": "Host data is modelled as a mirror of reflect (GoType/GoVal) with conv.TypeOf/ValOf/TypeEnvOf/ValEnvOf as total functions (depth limit, nil rules, tags, first-element typing, key collisions through Key()); tied by the conv stream: reflect-built values (StructOf/SliceOf/MapOf with tags, pointers, interfaces, all sized numerics, times, unsupported kinds, depth 98..103) serialised independently of conv. Oracles: well-formed result, TypeOf equals the value's type, contents equal the original, type stability across values of one Go type, errors for nil / mixed / unsupported / too deep. Proved over the model: depth and error clauses that are direct (Props/C15.lean); the wf/agree theorems are not yet proved, hence level 'other'.",
-    "assumptions": ["Go map iteration order is random: conv takes element types and error precedence from the first key iterated; the model is compared modulo iteration order (conv.among)"],
+    "explanation": "Host data is modelled as a mirror of reflect (GoType/GoVal) with conv.TypeOf/ValOf/TypeEnvOf/ValEnvOf as total functions. Proved: every converted value is deeply well formed with no absent component (C15.valOf_wf, valOf_noNil, typeOf_wf), the reported type is the value's type (typeOfRV_agree) and tyEq the static type for plain values (typeOf_agree_partial; the kernel-checked nil_field_counterexample shows the 'declared optional' precondition is needed), two plain values of one Go type convert to equal types (sample_independent, shape_determines_type), scalars and slice order are preserved (content_scalars, content_slice), nil / unsupported / mixed / too-deep data is an error (error_nil_top, error_nil_inside, error_unsupported_*, error_mixed, error_depth, error_depth_nested). Tie: conv stream (reflect-built values: StructOf/SliceOf/MapOf with tags, pointers, interfaces, all sized numerics, times, unsupported kinds, recursive types, depth 98..103) serialised independently of conv, compared modulo Go map iteration order; oracles for well-formedness, type agreement, contents, type stability, missing errors, panics.",
+    "assumptions": ["content equality of map entries and struct field names is checked by the conv oracle, not restated as a theorem beyond well-formedness"],
 }
 
 CHECKS["C16"] = {
@@ -225,14 +225,14 @@ CHECKS["C18"] = {
 }
 
 CHECKS["C19"] = {
-    "level": "other",
+    "level": "proof",
     "lean_targets": ["Yae.Props.C19"],
     "streams": [
         {"name": "debug", "quick_n": 2500, "thorough_n": 30000,
          "oracles": ["debug-result-differs", "debug-record", "debug-record-shifted", "debug-render-firstline", "debug-render-missing-value", "debug-panic", "process-crash"]},
     ],
-    "explanation": "Debug evaluation is the reference evaluator with dbg = true (the same definition, so same result by a theorem: C19.same_result), the record is the fold of its dbg events through Record.Rec, rendering is modelled in full (Model/Debug.lean) and tied by the debug stream (result, hook-exported entries, report text) on single-line programs with non-ASCII identifiers, multi-line values, unevaluated lazy branches, lazy host functions; oracles: same result as plain evaluation, entries equal an independent instrumented walk, first line is the source, every recorded value shown at its column. The render theorems of DESIGN §8 are not proved, hence level 'other'.",
-    "assumptions": [],
+    "explanation": "Debug evaluation is the reference evaluator with dbg = true. Proved: it returns the same value or failure and, apart from the debug entries, the same host calls and prints as normal evaluation, for every expression, environment and fuel (C19.same_result, same_run); an entry is recorded exactly when an identifier / call / subscript / member node completes, carrying its value and column+1, literals record nothing and untaken branches record nothing (recorded_node, record_on_success, no_record_on_failure, record_ident, *_records_nothing, if_records_only_taken); Record.Rec keeps columns distinct and places an entry at its own column when free (rec_free, rec_first_free, rec_distinct_cols), so the record equals the entries whenever their columns are distinct (recordOf_faithful_partial; the kernel-checked d27_eval / d27_record show the shift when a thunk is forced twice: finding D27); the report's first line is the source (render_firstline). Tie: debug stream (result, hook-exported entries, report text) on single-line programs with non-ASCII identifiers, multi-line values, unevaluated lazy branches, lazy host functions; oracles: same result, entries equal an independent instrumented walk, first line, every recorded value shown at its column.",
+    "assumptions": ["render_shows (every recorded value appears at its column) is checked by the debug oracle, not proved"],
 }
 
 CHECKS["C20"] = {
@@ -243,7 +243,7 @@ CHECKS["C20"] = {
          "oracles": ["sql-structure", "sql-quote", "sql-scalar", "sql-scalar-time-fraction", "sql-unreadable", "sql-panic", "process-crash"]},
         {"name": "num", "quick_n": 5000, "thorough_n": 50000},
     ],
-    "explanation": "ext/sql is modelled in full (criteria -> call tree -> type check against the SQL function table -> text with precedence-driven parentheses, fmtVal) together with a reference reader of the produced dialect with standard SQL precedence and an executable statement of C20 (c20Check: read(text) = flatten(tree), every string operand reads back as one literal); tied by the sql stream (random criteria trees to depth 4, adversarial strings and numbers, bound and unbound names, member access) where the Go oracle re-reads the text with an independent reader. Proved over the model: quoting round trip (Num.unquote_quote) and the scalar forms (Props/C20.lean); the structural theorem readSql (toSql c) = flatten c is checked per case by c20Check in both implementations, not proved, hence level 'other'.",
+    "explanation": "ext/sql is modelled in full (criteria -> call tree -> type check against the SQL function table -> text with precedence-driven parentheses, fmtVal) together with a reference reader of the produced dialect with standard SQL precedence and an executable statement of C20 (c20Check). Proved: the scalar forms (fmtVal_bool/num/time/str), substitution of bound names and back-quoting of unbound ones (bound_name_substituted, unbound_name_is_column), the quoting round trip and injectivity (quote_roundtrip, quote_injective, string_literal_reads_back_partial), the parenthesisation rule and its table (paren_rule_partial, paren_table: OR under AND and AND/OR under NOT are wrapped, nothing else), the reader on those shapes (reader_parens). Not proved: the structural theorem readSql (toSql c) = flatten c — it is decided per case by c20Check in Lean and by an independent reader in Go on every generated tree, hence level 'other'. Tie: sql stream (random criteria trees to depth 4, adversarial strings and numbers, bound and unbound names, member access).",
     "assumptions": ["string literals are in Go quote syntax; control characters use escapes MySQL reads differently (nothing escapes the quotes)"],
 }
 
